@@ -1031,6 +1031,10 @@ func (t *c19TL) evTick() {
 		}
 		idle := now.Sub(c.oLastCall)
 		want := sweepOn && wasActive && c.oActive && c.oPending == 0 && c.oRelayPending == 0 && idle >= time.Duration(t.maxIdle)
+		if t.relayMode && sweepOn && wasActive && c.oActive && c.oPending > 0 && idle >= time.Duration(t.maxIdle) {
+			// (engine_c19local.go) a relay connection that only a NON-relayed call keeps open at this sweep
+			t.hist[fmt.Sprintf("l:tick:idle-relay-conn-kept-by-nonrelayed-call:in=%d,out=%d,relayed=%d", minInt(len(c.inCalls), 1), minInt(len(c.outCalls), 1), minInt(c.oRelayPending, 1))]++
+		}
 		if want && !isClosed {
 			key := ""
 			if c.pingFlight {
@@ -1040,8 +1044,8 @@ func (t *c19TL) evTick() {
 				key, now.Sub(time.Unix(0, t.t0)), c.id, idle, time.Duration(t.maxIdle), c.pingFlight)
 		}
 		if !want && isClosed {
-			t.fail("sweep at clock t0+%v closed connection %d although it should not: enabled=%v pendingCalls=%d relayPending=%d idleFor=%v MaxIdleTime=%v",
-				now.Sub(time.Unix(0, t.t0)), c.id, sweepOn, c.oPending, c.oRelayPending, idle, time.Duration(t.maxIdle))
+			t.fail("sweep at clock t0+%v closed connection %d although it should not: enabled=%v pendingCalls=%d relayPending=%d idleFor=%v MaxIdleTime=%v%s",
+				now.Sub(time.Unix(0, t.t0)), c.id, sweepOn, c.oPending, c.oRelayPending, idle, time.Duration(t.maxIdle), t.c19lDescribe(c))
 		}
 		if isClosed {
 			t.markClosed(c)
@@ -1381,6 +1385,8 @@ func c19RunTimeline(rng *rand.Rand, idx int, tier string, o *Out) {
 	}
 	if t.relayMode {
 		opts.RelayHost = &c19RelayHost{}
+		// calls to the channel's own service are handled by the relay channel itself (engine_c19local.go)
+		opts.RelayLocalHandlers = c19lLocalHandlers
 	}
 	t.cfg.apply(opts, t.sink)
 	in := []int64{t.idleInterval, t.maxIdle, t.hInterval, t.hTimeout, t.hFail, t.t0}
@@ -1497,7 +1503,10 @@ func c19RunTimeline(rng *rand.Rand, idx int, tier string, o *Out) {
 				t.evWrite(c, writeTypes[rng.Intn(len(writeTypes))])
 			}
 		case r < 66: // calls
-			if t.relayMode {
+			if t.relayMode && act && t.c19lRandomCall(c) {
+				// a call of the relay channel that is not relayed: handled locally (RelayLocalHandlers)
+				// or originated by the relay channel itself -- pending in the exchange sets only
+			} else if t.relayMode {
 				var srcs, dsts []*c19Conn
 				for _, x := range live {
 					if t.state(x).State != 1 {
